@@ -168,3 +168,67 @@ Proof.
   destruct (get_at doc q) as [par|] eqn:Eq; [|discriminate]. exists par. split; [exact Eq|].
   cbn [get_at] in Hg. destruct (nth_error (children par) i); [congruence | discriminate].
 Qed.
+
+(* ---------- well-keyedness is preserved by writing a well-keyed value at a position ---------- *)
+Lemma wk_items_upd l : forall i j v,
+  wk_items l i -> wk v -> wk_items (upd_nth l j (fun kc => (fst kc, v))) i.
+Proof.
+  induction l as [|[k c] l IH]; intros i j v H Hv; [destruct j; exact H|].
+  destruct H as (Hk & Hc & Hr). destruct j as [|j]; cbn [upd_nth].
+  - cbn. repeat split; try assumption.
+  - change (k = RIdx (N.of_nat i) /\ wk c /\ wk_items (upd_nth l j (fun kc => (fst kc, v))) (S i)).
+    repeat split; try assumption. apply IH; assumption.
+Qed.
+
+Lemma wk_map_children_upd es : forall j v,
+  (fix go (l : list (str * node)) : Prop := match l with [] => True | (_, c) :: r => wk c /\ go r end) es ->
+  wk v ->
+  (fix go (l : list (str * node)) : Prop := match l with [] => True | (_, c) :: r => wk c /\ go r end)
+    (upd_nth es j (fun kc => (fst kc, v))).
+Proof.
+  induction es as [|[k c] es IH]; intros j v H Hv; [destruct j; exact H|].
+  destruct H as [Hc Hr]. destruct j as [|j]; cbn [upd_nth]; cbn; split; try assumption. apply IH; assumption.
+Qed.
+
+Lemma unique_keys_upd es : forall j v, unique_keys es -> unique_keys (upd_nth es j (fun kc => (fst kc, v))).
+Proof.
+  intros j v H.
+  assert (Hk : List.map fst (upd_nth es j (fun kc => (fst kc, v))) = List.map fst es).
+  { clear H. revert j. induction es as [|[k c] es IH]; intros j; destruct j as [|j]; cbn; try reflexivity; f_equal; apply IH. }
+  revert Hk H. generalize (upd_nth es j (fun kc : str * node => (fst kc, v))). intros es'. revert es'.
+  induction es as [|[k c] es IH]; intros [|[k' c'] es'] Hk H; cbn in *; try discriminate; try exact I.
+  injection Hk as -> Hk. destruct H as [Hn Hu]. split.
+  - rewrite (find_idx_keys es' es k Hk). assumption.
+  - apply IH; assumption.
+Qed.
+
+Theorem wk_upd_at p : forall n v, wk n -> (forall m, get_at n p = Some m -> wk v) -> wk (upd_at n p (fun _ => v)).
+Proof.
+  induction p as [|i p IH]; intros n v Hw Hv; cbn [upd_at].
+  - apply (Hv n). reflexivity.
+  - destruct n as [t tv|items|es]; [exact Hw| |].
+    + cbn [wk]. fold (wk_items (upd_nth items i (fun kc => (fst kc, upd_at (snd kc) p (fun _ => v)))) O).
+      destruct (nth_error items i) as [[k c]|] eqn:En.
+      * assert (Hc : wk c) by (eapply wk_seq_nth; eassumption).
+        assert (Hsub : wk (upd_at c p (fun _ => v))).
+        { apply IH; [assumption|]. intros m Hm. apply (Hv m). cbn [get_at children]. rewrite nth_error_map, En. exact Hm. }
+        replace (upd_nth items i (fun kc => (fst kc, upd_at (snd kc) p (fun _ => v))))
+          with (upd_nth items i (fun kc => (fst kc, upd_at c p (fun _ => v)))).
+        -- apply wk_items_upd; assumption.
+        -- apply upd_nth_ext_on with (x := (k, c)); [assumption | reflexivity].
+      * replace (upd_nth items i _) with items; [exact Hw|].
+        clear - En. revert i En. induction items as [|y l IHl]; intros [|i] En; cbn in *; try discriminate; try reflexivity.
+        f_equal. apply IHl. assumption.
+    + destruct Hw as [Hu Hch]. cbn [wk].
+      destruct (nth_error es i) as [[k c]|] eqn:En.
+      * assert (Hc : wk c) by (eapply (wk_map_nth es i k c (conj Hu Hch)); eassumption).
+        assert (Hsub : wk (upd_at c p (fun _ => v))).
+        { apply IH; [assumption|]. intros m Hm. apply (Hv m). cbn [get_at children]. rewrite nth_error_map, En. exact Hm. }
+        replace (upd_nth es i (fun kc => (fst kc, upd_at (snd kc) p (fun _ => v))))
+          with (upd_nth es i (fun kc => (fst kc, upd_at c p (fun _ => v)))).
+        -- split; [apply unique_keys_upd; assumption | apply wk_map_children_upd; assumption].
+        -- apply upd_nth_ext_on with (x := (k, c)); [assumption | reflexivity].
+      * replace (upd_nth es i _) with es; [split; assumption|].
+        clear - En. revert i En. induction es as [|y l IHl]; intros [|i] En; cbn in *; try discriminate; try reflexivity.
+        f_equal. apply IHl. assumption.
+Qed.
